@@ -284,6 +284,9 @@ func (p *Program) functionalByName(pkg, name string) *ssa.Function {
 			continue
 		}
 		short := c.Name
+		if i := strings.Index(short, ")."); i >= 0 && short[i+2:] == name {
+			short = name // a method, called in contracts as Method(receiver, args...)
+		}
 		if short == name || (strings.Contains(name, ".") && strings.HasSuffix(key, "/"+name)) || key == pkg+"."+name {
 			if fn := p.Funcs[key]; fn != nil {
 				if found == nil || c.Pkg == pkg {
